@@ -247,7 +247,9 @@ func c16(c *core.Check) {
 		}
 	}
 	// truncation branch
-	truncIfs := ifsWhere(gf, func(is *ast.IfStmt) bool { return exprCalls(gf, is.Cond, "io/fs.FileInfo.Size", "os.FileInfo.Size") || strings.Contains(exprStr(is.Cond), ".Size()") })
+	truncIfs := ifsWhere(gf, func(is *ast.IfStmt) bool {
+		return exprCalls(gf, is.Cond, "io/fs.FileInfo.Size", "os.FileInfo.Size") || strings.Contains(exprStr(is.Cond), ".Size()")
+	})
 	c.Rule("C16-R5", "DETECT: the goroutine stats the tailed path; IsNotExist leads to Finish+close+return; os.SameFile(fi, newfi) compares the generation's own FileInfo with the fresh stat; truncation is `size < offset` (strict) with offset from Seek(0, io.SeekCurrent), and the rotation test precedes the truncation test")
 	if len(truncIfs) != 1 {
 		c.Undecided("C16-R5", gf.Key+"|truncation test", pos(c, gf.Lit), fmt.Sprintf("expected one `if newfi.Size() < offset`, found %d", len(truncIfs)))
